@@ -121,6 +121,39 @@ def run(ctx):
                                    "correspondence": "PV.Compress.wstep vs WriteStream::write/flush"}, no_input=True,
                                    summary=f"writer trace not accepted by the controller model or accounting differs: {r[:150]}")
             break
+    # ---------------- writer, bulk: incompressible data in writes of 1..4096 bytes, so that the compressed output meets the
+    # 4 KiB staging buffer at every alignment (in particular with 1..5 bytes of room left at the end of a write call)
+    import zlib
+    bulk = []
+    for comp, total in (("gzip", 12_000_000), ("gzip", 12_000_000), ("gzip", 12_000_000), ("gzip", 12_000_000), ("bzip2", 1_500_000)) if ctx.tier == "quick" else \
+            [("gzip", 16_000_000)] * 16 + [("bzip2", 4_000_000)] * 2:
+        bulk.append(f"z.writerand {comp} {ctx.seed * 1000 + len(bulk)} {total} 4096")
+    ba = pvlib.run_lines(impl, bulk, env=pvlib.san_env(), timeout=1800, per_line_timeout=300, stall=300)
+    ctx.count("z.writerand", len(bulk), bulk)
+    for o, x in zip(bulk, ba):
+        xs = x.split()
+        comp = o.split()[1]
+        if xs[0] != "ok":
+            pvlib.report_violation(ctx, "zbulk:" + o, {"ops": [o], "impl": x[:300]}, summary=f"{o}: {x[:80]}")
+            continue
+        path, total, crc = xs[1], int(xs[2]), int(xs[3])
+        raw = open(path, "rb").read()
+        os.unlink(path)
+        problem = None
+        try:
+            dec = py_decode(comp, raw)
+            if len(dec) != total or zlib.crc32(dec) != crc:
+                problem = f"expands to {len(dec)} bytes with another checksum; {total} bytes were written"
+        except Exception as e:
+            problem = f"is not a valid {comp} stream: {e!r}"
+        if problem:
+            pvlib.report_violation(ctx, "zbulk:" + o, {"ops": [o], "problem": problem, "file_bytes": len(raw)},
+                                   summary=f"WriteCompressed({comp}), {total} pseudo-random bytes in writes of 1..4096 bytes ({o}): the output {problem}")
+            continue
+        # (the event trace of a bulk run is not replayed through the Lean controller: the model tracks every produced byte
+        # as an element of a list, which is quadratic at this size; the scripted cases above are replayed in full)
+        nd = sum(1 for e in xs[4].split(";") if e.startswith("W.drain"))
+        ctx.cov["bulk_drains"] = ctx.cov.get("bulk_drains", 0) + nd
     # ---------------- reader: formats, members, fragments, read sizes
     rops, want = [], []
     enc = {"gz": gzip.compress, "bz2": bz2.compress, "xz": lzma.compress, "plain": lambda b: b}
